@@ -53,6 +53,21 @@ def ops_list(full):
     return ops
 
 
+def extra_key_palettes():
+    """Dictionaries that give each of the 20 amino acids a standard colour AND carry extra keys: accepted, extras ignored."""
+    out = []
+    for extra in ({"X": "red"}, {"-": "pink"}, {"B": "#ff0000", "U": None}, {"a": "Red"}, {None: "black"}):
+        d = {a: T.HTML_COLOURS[(5 * i + 2) % 17] for i, a in enumerate(T.AA)}
+        d.update(extra)
+        out.append(d)
+    return out
+
+
+def _unused_ops():
+    ops = []
+    return ops
+
+
 def parse_html(html):
     """-> list of (residue, colour, n_space, has_br) or None if the markup is not of the expected form."""
     if not FULL.match(html):
@@ -155,6 +170,50 @@ def check_scenarios(tier):
             if obs != p:
                 acc.viol("rejected-update-changed-palette", "palette %s: after the rejected re-submission of the edited dictionary rendering "
                          "shows %r" % (name, obs if isinstance(obs, str) else sorted(obs.items())[:8]), case)
+    # extra keys: every one of the 20 residues gets a standard colour, so the update is accepted and the extras are ignored
+    for i, d in enumerate(extra_key_palettes()):
+        case = {"kind": "extra-keys", "index": i}
+        acc.transitions += 1
+        acc.traces += 1
+        o = SP(CYCLE)
+        try:
+            o.set_HTMLColorResiduePalette(dict(d))
+        except Exception as e:  # noqa
+            acc.viol("valid-palette-rejected", "a palette colouring all 20 residues validly but carrying extra keys %r was rejected (%r)"
+                     % ([k for k in d if k not in T.AASET], e), case)
+            continue
+        if observe_palette(o) != {a: d[a] for a in T.AA}:
+            acc.viol("palette-not-committed", "palette with extra keys: rendering shows %r" % (sorted(observe_palette(o).items())[:6],), case)
+    # other API areas between the update and the rendering (plots, analyses, shuffles) must not touch the palette
+    import matplotlib.pyplot as plt
+    from ..apivec import api_vector
+    for name, p in pals:
+        if name not in ("all-white", "all-black", "rotating", "default"):
+            continue
+        case = {"kind": "context", "palette": name}
+        acc.transitions += 1
+        acc.traces += 1
+        o = SP("KKEESSTTGGPPAAWWYYHHCC" * 2)
+        try:
+            o.set_HTMLColorResiduePalette(dict(p))
+            orig = plt.savefig
+            plt.savefig = lambda *a, **k: None
+            try:
+                api_vector(o)
+                o.save_linearComposition("/nonexistent/x.png")
+                o.save_phaseDiagramPlot("/nonexistent/y.png", label="p")
+                o.show_linearNCPR(getFig=True)
+                o.get_shuffled_sequence([0])
+            finally:
+                plt.savefig = orig
+                plt.close("all")
+        except Exception as e:  # noqa
+            acc.extra.setdefault("context_errors", []).append(repr(e)[:100])
+        toks = parse_html(o.get_HTMLColorString())
+        obs = None if toks is None else {r: c for r, c, _, _ in toks}
+        if obs != {r: p[r] for r in set(o.get_sequence())}:
+            acc.viol("palette-changed-by-other-calls", "palette %s: after analyses / plots / a shuffle on the same object rendering shows %r"
+                     % (name, None if obs is None else sorted(obs.items())), case)
     for name, p in pals[1:]:
         case = {"kind": "first-object", "palette": name}
         acc.transitions += 2
@@ -269,9 +328,10 @@ def render_shard(args):
 
 
 def replay(case):
-    if case.get("kind") in ("reused-dict", "first-object"):
+    if case.get("kind") in ("reused-dict", "first-object", "extra-keys", "context"):
         a = check_scenarios("quick")
-        return [v for v in a.violations if v["case"].get("palette") == case.get("palette") and v["case"]["kind"] == case["kind"]]
+        return [v for v in a.violations if v["case"].get("palette") == case.get("palette") and v["case"]["kind"] == case["kind"]
+                and v["case"].get("index") == case.get("index")]
     full = case.get("tier") == "thorough"
     ops = {o[0]: o for o in ops_list(full)}
     out = []
@@ -332,7 +392,7 @@ def run(tier, seed, t0):
              "palette entry, exactly one space before residues 0,10,20,.., a <br> before residues 0,50,100,.., stripped markup == "
              "sequence. Scenarios: the caller edits its own dictionary in place after an accepted update (the palette must not follow, the "
              "re-submission must be rejected and change nothing); in a freshly imported package the very first object receives each "
-             "valid palette and an object created afterwards must still render with the default. dont-care: upper-case colour names, extra keys; non-trivial = renders longer than one block of 10" % (
+             "valid palette and an object created afterwards must still render with the default. a dictionary that colours all 20 residues validly and carries extra keys is accepted (extras ignored); after analyses, plots and a shuffle on the same object the palette is unchanged. dont-care: upper-case colour names; non-trivial = renders longer than one block of 10" % (
                  len(ops), "all" if full else "3", ", None, 5" if full else "", "1..120" if full else "{1,9,10,11,20,49,50,51,60,99,100,101,120}"),
         bounds={"palette_ops": len(ops), "render_inputs_per_state": len(seqs), "depth": "fixpoint"},
         assumptions=["the palette is observed through rendering only (no attribute reads)"])
